@@ -63,6 +63,35 @@ def run(ctx):
         if len(vals) != 1 or npairs != want_pairs:
             ctx.fail('random_pair', 'a uniform tape does not give a uniform anticommuting pair at N=%d (%d pairs, multiplicities %s)' % (n, npairs, sorted(vals)),
                      dict(N=n))
+    # exact distribution of the kernels as functions of a uniform tape, resampling paths included: all tapes of a fixed length are
+    # enumerated (a tape that resolves after k bits is counted 2^(L-k) times, i.e. with its probability); every output must be
+    # equally likely. For random_clifford(2) this is the multiplicity theorem C16_randomClifford_multiplicity evaluated on the code:
+    # 720 symplectic classes, each from exactly 2^n tapes among those that resolve without resampling.
+    def exact_counts(fn, L):
+        cnt_ = {}
+        for tape in itertools.product([0, 1], repeat=L):
+            t = R.Tape(tape)
+            try:
+                U.random_pair = rp
+                with R.patched(t):
+                    out = fn()
+            except R.TapeExhausted:
+                continue
+            finally:
+                U.random_pair = old_pair
+            key = tuple(np.asarray(out).astype(int).reshape(-1).tolist()) if not isinstance(out, tuple) else tuple(np.concatenate([np.asarray(o).astype(int).reshape(-1) for o in out]).tolist())
+            cnt_[key] = cnt_.get(key, 0) + 1
+        return cnt_
+    old_pair = U.random_pair
+    for nm_, fn_, L_, want_ in (('random_pair(1)', lambda: rp(1), 10, 6), ('random_pair(2)', lambda: rp(2), 12, 120),
+                                ('random_clifford(1)', lambda: U.random_clifford(1), 10, 6), ('random_clifford(2)', lambda: U.random_clifford(2), 12, 720),
+                                ('random_pauli(2)', lambda: U.random_pauli.py_func(2), 8, 36)):
+        ce = exact_counts(fn_, L_)
+        ctx.count('exact-distribution:' + nm_)
+        ctx.case(('exact-distribution', nm_), True, sample=dict(op=nm_, tapes=2 ** L_, outputs=len(ce)))
+        if len(ce) != want_ or len(set(ce.values())) != 1:
+            ctx.fail(nm_.split('(')[0], 'under a uniform tape %s is not uniform: %d different outputs (expected %d), multiplicities between %d and %d over all %d-bit tapes' % (
+                nm_, len(ce), want_, min(ce.values()) if ce else 0, max(ce.values()) if ce else 0, L_), dict(kernel=nm_, tape_bits=L_))
     for _ in range(ctx.budget(150, 2000)):
         n = rng.choice([3, 4, 5, 6])
         tape = [rng.randrange(2) for _ in range(4 * n)]
@@ -70,7 +99,6 @@ def run(ctx):
             tape = [0] * (2 * n) + tape
         pair_case(n, tape)
     # random_pauli and random_clifford as functions of the tape (the kernels they call are redirected to the un-jitted pair sampler)
-    old_pair = U.random_pair
     for _ in range(ctx.budget(150, 1500)):
         n = rng.choice([1, 2, 2, 3, 3, 4, 5])
         tape = [rng.randrange(2) for _ in range(8 * n * n + 8)]
